@@ -59,3 +59,37 @@ def run(ctx):
         ctx.instance("C09.2", "%s: writer mutex held across %d log writes / publications=%s" % (fn.split("::")[-1], len(sinks), held))
         ctx.oblige(bool(acqs) and held, "C09.2", fn + ":not-under-writer-lock",
                    "maintenance writes the log / republishes state without holding the writer mutex: it can interleave with an open write transaction", b.file)
+
+    writer_rmw_rule(ctx, "C09.3")
+
+
+def writer_rmw_rule(ctx, rid):
+    """shared by C09.3 and C10.2"""
+    from .. import locks
+    F = ctx.facts
+    ctx.rule(rid, "a maintenance writer's read-modify-write is atomic: every engine-state lock it takes (published runs / segments, pager, WAL, id map ...) is taken while it holds the writer mutex")
+    # ---- clause 3 -----------------------------------------------------------------------------
+    # compact() and checkpoint_on_close() compute the new published state from the current one.  If the current state is read
+    # before the writer mutex is taken, a transaction that commits in between is published and then overwritten by the stale
+    # result (its run disappears; after close the WAL is rewritten without it).
+    n3 = 0
+    for i, b in sorted(F.bodies.items()):
+        if not i.startswith("nervusdb_storage::") or "::tests::" in i:
+            continue
+        fl = locks.BodyLocks(b)
+        w = [a for a in fl.acqs if a.cls == "Mutex<()>" and a.mode == "lock" and not a.escapes]
+        if not w:
+            continue
+        k = {}
+        for a in fl.acqs:
+            if a.cls == "Mutex<()>":
+                continue
+            n3 += 1
+            held = any(fl.must_hold(x, a.call.bb) for x in w)
+            lab = "%s.%s" % (a.label[0] if a.label else a.cls, a.mode)
+            k[lab] = k.get(lab, -1) + 1
+            ctx.instance(rid, "%s: %s at %s under the writer mutex=%s" % (i.split("::")[-1], lab, a.call.loc(), held))
+            ctx.oblige(held, rid, "%s:%s#%d-outside-writer-lock" % (i, lab, k[lab]),
+                       "a writer reads or locks engine state (%s) before it holds the writer mutex: a transaction committing in between is "
+                       "overwritten by the result computed from the stale state" % lab, a.call.loc())
+    ctx.floor(rid, "engine-state acquisitions inside maintenance writers", n3, 12)
